@@ -105,3 +105,76 @@ func H_C10_sacramento_lower_zone_budget() {
 	vsym.Assert(t1 >= 0 && t1 <= lztwm+1e-9 && p1 >= 0 && p1 <= lzfpm+1e-9 && s1 >= 0 && s1 <= lzfsm+1e-9, "lower-zone-stores-within-capacity")
 	vsym.AssertNear(ro.Get1(0), bf.Get1(0), 1e-9, 1e-9, "rainless-empty-upper-zone-runoff-is-baseflow")
 }
+
+// c10sacStorm: one timestep of Sacramento on the pervious area alone (pctim = adimp = side = 0, no
+// channel losses, unit hydrograph (1,0,0,0,0)) with a storm that needs several drainage/percolation
+// increments: the upper tension store is full, so that all rain minus the evaporation demand is
+// available moisture, and the ranges of upper free water [uzLo, uzHi], rain [rainLo, 5.08] and PET
+// [0, 0.5] put (upper free water + available moisture)/5 between ninc-1 and ninc, i.e. `ninc`
+// increments (whatever the code computes is executed; the unwinding bound covers ninc+1).  Rain <=
+// 5.08 mm keeps the step in the single-pass branch (adj = 1), so the increment fractions are 1/ninc
+// and the drainage rates are roots of constants.  The other parameters are one concrete vector
+// (given in the body).  With `full` the lower zone starts full (no percolation: the upper free
+// water store fills and spills) and the obligations are proof obligations; otherwise the three
+// lower-zone stores are symbolic too and the obligations are 30 s counterexample searches + native
+// probing (every corner of the stated ranges satisfies the assumptions and is probed).
+// Obligations: the step's water account closes,  rain = change of the five stores + actual ET +
+// runoff;  every store stays within its capacity; the fluxes are non-negative and add up.
+func c10sacStorm(uzfwm, uzLo, uzHi, rainLo float64, full bool, petHi float64) {
+	const uztwm, lztwm, lzfsm, lzfpm = 50.0, 130.0, 25.0, 60.0
+	rain, pet := c10in("rain", rainLo, 5.08), 0.0
+	if petHi > 0 {
+		pet = c10in("pet", 0, petHi)
+	}
+	uzfwc := c10in("uzfwc", uzLo, uzHi)
+	lztwc, lzfpc, lzfsc := lztwm, lzfpm, lzfsm
+	if !full {
+		lztwc = c10in("lztwc", 0, lztwm)
+		lzfpc = c10in("lzfpc", 0, lzfpm)
+		lzfsc = c10in("lzfsc", 0, lzfsm)
+	}
+	aet, ro, imp, surf, bf := rrOut(1), rrOut(1), rrOut(1), rrOut(1), rrOut(1)
+	a1, b1, c1, d1, e1, _ := sacramento(rrOne(rain), rrOne(pet), uztwm, uzfwc, lztwc, lzfpc, lzfsc, uztwm+lztwc,
+		0.01, 0.05, 0.3, uztwm, uzfwm, lztwm, lzfsm, lzfpm, 0.06, 1.0, 40, 0, 0, 0, 0, 0, 0.3,
+		1, 0, 0, 0, 0, aet, ro, imp, surf, bf)
+	vsym.Reach("returned")
+	before := uztwm + uzfwc + lztwc + lzfpc + lzfsc
+	after := a1 + b1 + c1 + d1 + e1
+	if full {
+		vsym.AssertNear(rain, after-before+aet.Get1(0)+ro.Get1(0), 1e-7, 1e-9, "storm-step-water-account-closes")
+		vsym.Assert(a1 >= -rrAbs && a1 <= uztwm+rrAbs, "upper-tension-store-within-capacity")
+		vsym.Assert(b1 >= -rrAbs && b1 <= uzfwm+rrAbs, "upper-free-store-within-capacity")
+		vsym.Assert(c1 >= -rrAbs && c1 <= lztwm+rrAbs, "lower-tension-store-within-capacity")
+		vsym.Assert(d1 >= -rrAbs && d1 <= lzfpm+rrAbs, "lower-primary-store-within-capacity")
+		vsym.Assert(e1 >= -rrAbs && e1 <= lzfsm+rrAbs, "lower-supplemental-store-within-capacity")
+		vsym.Assert(ro.Get1(0) >= -rrAbs && bf.Get1(0) >= -rrAbs && surf.Get1(0) >= -rrAbs && aet.Get1(0) >= -rrAbs, "fluxes-nonnegative")
+		vsym.AssertNear(ro.Get1(0), surf.Get1(0)+bf.Get1(0), rrAbs, rrRel, "runoff-is-surface-plus-baseflow")
+		return
+	}
+	vsym.HuntNear(rain, after-before+aet.Get1(0)+ro.Get1(0), 1e-7, 1e-9, "storm-step-water-account-closes")
+	vsym.Hunt(a1 >= -rrAbs && a1 <= uztwm+rrAbs, "upper-tension-store-within-capacity")
+	vsym.Hunt(b1 >= -rrAbs && b1 <= uzfwm+rrAbs, "upper-free-store-within-capacity")
+	vsym.Hunt(c1 >= -rrAbs && c1 <= lztwm+rrAbs, "lower-tension-store-within-capacity")
+	vsym.Hunt(d1 >= -rrAbs && d1 <= lzfpm+rrAbs, "lower-primary-store-within-capacity")
+	vsym.Hunt(e1 >= -rrAbs && e1 <= lzfsm+rrAbs, "lower-supplemental-store-within-capacity")
+	vsym.Hunt(ro.Get1(0) >= -rrAbs && bf.Get1(0) >= -rrAbs && surf.Get1(0) >= -rrAbs && aet.Get1(0) >= -rrAbs, "fluxes-nonnegative")
+	vsym.HuntNear(ro.Get1(0), surf.Get1(0)+bf.Get1(0), rrAbs, rrRel, "runoff-is-surface-plus-baseflow")
+}
+
+// H_C10_sacramento_storm2_full: two increments, upper free water capacity 6 mm, lower zone full
+// (proof obligations; see c10sacStorm).
+//vsym:prop=C10 tier=quick ints=int floats=real timeout=60 cut=6 unwind=12 prunefrom=1 prune=all concf2i=1 wall=600
+func H_C10_sacramento_storm2_full() { c10sacStorm(6, 3, 4.9, 2.5, true, 0.5) }
+
+// H_C10_sacramento_storm2: two increments, upper free water capacity 6 mm, symbolic lower zone
+// (counterexample searches; see c10sacStorm).
+//vsym:prop=C10 tier=quick ints=int floats=real timeout=30 cut=6 unwind=12 prunefrom=1 prune=all concf2i=1 wall=600
+func H_C10_sacramento_storm2() { c10sacStorm(6, 3, 4.9, 2.5, false, 0.5) }
+
+// H_C10_sacramento_storm3_full: three increments, upper free water capacity 12 mm, lower zone full.
+//vsym:prop=C10 tier=quick ints=int floats=real timeout=60 cut=6 unwind=12 prunefrom=1 prune=all concf2i=1 wall=600
+func H_C10_sacramento_storm3_full() { c10sacStorm(12, 6, 9.9, 4.5, true, 0.5) }
+
+// H_C10_sacramento_storm2_full_nopet: as storm2_full without evaporation demand.
+//vsym:prop=C10 tier=quick ints=int floats=real timeout=60 cut=6 unwind=12 prunefrom=1 prune=all concf2i=1 wall=600
+func H_C10_sacramento_storm2_full_nopet() { c10sacStorm(6, 3, 4.9, 2.5, true, 0) }
